@@ -4,6 +4,7 @@ Everything here is a static view of the type-checked program: bodies, CFG, domin
 def-use, pretty printing.  Nothing is executed.
 """
 import json
+import os
 import re
 from collections import defaultdict
 
@@ -148,6 +149,7 @@ class Body:
         self.file = self.span.get("file")
         self.line = self.span.get("line")
         self.parent = j.get("parent")
+        self.direct_parent = j.get("direct_parent") or j.get("parent")
         self.impl = j.get("impl")
         self.promoted = j.get("promoted") or []
         self._defs = None
@@ -538,6 +540,143 @@ class Body:
         return "\n".join(out)
 
 
+def anonymise(doc, mode):
+    """Self-test aid (JBV_ANON=locals|all): consistently rename every local variable (mode `all`:
+    also every parameter except self) in the facts, as a whole-crate rename refactor would.  A rule
+    that fires on the anonymised program depends on an identifier and is a false alarm in waiting."""
+    import hashlib
+    bodies = doc["bodies"]
+    by_path = {b["path"]: b for b in bodies}
+
+    def top(b):
+        while b.get("kind") == "Closure" and b.get("parent") in by_path:
+            b = by_path[b["parent"]]
+        return b
+    keep = {}
+    for b in bodies:
+        t = top(b)
+        if b is t:
+            ps = set()
+            if mode != "all":
+                for l in range(1, b.get("argc", 0) + 1):
+                    nm = b["hdr"]["locals"][l].get("name")
+                    if nm:
+                        ps.add(nm)
+            ps.add("self")
+            keep[b["path"]] = ps
+
+    def ren(word, kp):
+        if word in kp or not re.match(r"^[A-Za-z_]\w*$", word):
+            return word
+        return "v" + hashlib.md5(word.encode()).hexdigest()[:6]
+
+    def ren_place_name(nm, kp):
+        # capture names look like `x`, `*x`, `self.field`, `(*x).0`
+        return re.sub(r"[A-Za-z_]\w*", lambda m: ren(m.group(0), kp) if m.start() == len(nm) - len(nm.lstrip("(*&")) else m.group(0), nm, count=1)
+
+    def walk(o, kp):
+        if isinstance(o, dict):
+            if o.get("k") == "closure" and "captures" in o:
+                for c in o["captures"]:
+                    c["name"] = ren_place_name(c["name"], kp)
+            if o.get("k") == "field" and o.get("name") is not None and "{closure" in str(o.get("of") or ""):
+                o["name"] = ren_place_name(o["name"], kp)
+            for v in o.values():
+                walk(v, kp)
+        elif isinstance(o, list):
+            for v in o:
+                walk(v, kp)
+    for b in bodies:
+        kp = keep.get(top(b)["path"], {"self"})
+        for d in b["hdr"]["locals"]:
+            if d.get("name"):
+                d["name"] = ren(d["name"], kp)
+        walk(b.get("blocks"), kp)
+        for pj in b.get("promoted") or []:
+            for d in (pj.get("hdr") or {}).get("locals", []):
+                if d.get("name"):
+                    d["name"] = ren(d["name"], kp)
+            walk(pj.get("blocks"), kp)
+
+
+_PARAM_TABLE = None
+
+
+def canonicalise_params(doc):
+    """Undo parameter *renames* relative to the pinned tree (jbv/param_names.json, by position): if a
+    function of the table has the same arity but a parameter whose name is not among the recorded
+    ones, that parameter gets its recorded name back - in the function, in the closures nested in
+    it, and in their capture lists.  A pure reordering (same name set) is left alone.  New
+    functions are not in the table.  Rules can therefore speak about `alpha`, `stream_index`, ..
+    without firing on a rename."""
+    global _PARAM_TABLE
+    if _PARAM_TABLE is None:
+        try:
+            _PARAM_TABLE = json.load(open(os.path.join(os.path.dirname(os.path.abspath(__file__)), "param_names.json")))
+        except OSError:
+            _PARAM_TABLE = {}
+    table = _PARAM_TABLE
+    bodies = doc["bodies"]
+    by_path = {b["path"]: b for b in bodies}
+
+    def top(b):
+        n = 0
+        while b.get("kind") == "Closure" and b.get("parent") in by_path and n < 10:
+            b = by_path[b["parent"]]
+            n += 1
+        return b
+    maps = {}
+    for b in bodies:
+        rec = table.get(b["path"])
+        if rec is None or b.get("kind") == "Closure" or len(rec) != b.get("argc", 0):
+            continue
+        locs = b["hdr"]["locals"]
+        act = [locs[i + 1].get("name") for i in range(len(rec))]
+        if act == rec or sorted(x or "" for x in act) == sorted(x or "" for x in rec):
+            continue
+        m = {}
+        for a, r in zip(act, rec):
+            if a and r and a != r and a not in rec and r not in act:
+                m[a] = r
+        if m:
+            maps[b["path"]] = m
+    if not maps:
+        return
+
+    def ren_place_name(nm, m):
+        mm = re.match(r"^([(*&]*)([A-Za-z_]\w*)(.*)$", nm)
+        if mm and mm.group(2) in m:
+            return mm.group(1) + m[mm.group(2)] + mm.group(3)
+        return nm
+
+    def walk(o, m):
+        if isinstance(o, dict):
+            if o.get("k") == "closure" and "captures" in o:
+                for c in o["captures"]:
+                    c["name"] = ren_place_name(c["name"], m)
+            if o.get("k") == "field" and o.get("name") is not None and "{closure" in str(o.get("of") or ""):
+                o["name"] = ren_place_name(o["name"], m)
+            for v in o.values():
+                walk(v, m)
+        elif isinstance(o, list):
+            for v in o:
+                walk(v, m)
+    for b in bodies:
+        m = maps.get(top(b)["path"])
+        if not m:
+            continue
+        shadow = set()
+        if b.get("kind") == "Closure":
+            # a closure's own locals / parameters with the same name shadow the captured one
+            pass
+        for d in b["hdr"]["locals"]:
+            if d.get("name") in m:
+                d["name"] = m[d["name"]]
+        walk(b.get("blocks"), m)
+        for pj in b.get("promoted") or []:
+            walk(pj.get("blocks"), m)
+
+
 class Program:
     def __init__(self, doc):
         self.doc = doc
@@ -567,7 +706,13 @@ class Program:
         # const; rustc prints such paths through the first module that declares it
         # (`model::mean_vari::_::_serde::de::Visitor`).  Normalise to `serde::`.
         text = re.sub(r"\b(?:\w+::)+_::_serde::", "serde::", text)
-        return cls(json.loads(text))
+        doc = json.loads(text)
+        mode = os.environ.get("JBV_ANON")
+        if mode:
+            anonymise(doc, mode)
+        if not os.environ.get("JBV_NO_CANON"):
+            canonicalise_params(doc)
+        return cls(doc)
 
     def body(self, path):
         return self.bodies.get(path)
